@@ -55,7 +55,7 @@ impl GraphCase {
     pub fn build(&self) -> Result<G, graphrs::Error> {
         Graph::new_from_nodes_and_edges(
             self.nodes.iter().map(|n| N { name: *n, attr: None }.to_node()).collect(),
-            self.edges.iter().map(|e| E { u: e.0, v: e.1, w: e.2, attr: None }.to_edge()).collect(),
+            { let mut arcs = crate::store::EdgeArcs::default(); self.edges.iter().map(|e| arcs.get(&E { u: e.0, v: e.1, w: e.2, attr: None })).collect() },
             self.specs.to_graph_specs(),
         )
     }
@@ -66,6 +66,17 @@ impl GraphCase {
             self.nodes.iter().map(|n| N { name: *n, attr: None }.to_node()).collect(),
             self.edges.iter().map(|e| match e.2 {
                 Some(w) => graphrs::Edge::with_weight(e.0, e.1, w as f64 / div as f64),
+                None => graphrs::Edge::new(e.0, e.1),
+            }).collect(),
+            self.specs.to_graph_specs(),
+        )
+    }
+    /// the same graph with every weight divided by an arbitrary number (not exact in f64)
+    pub fn build_divided(&self, den: f64) -> Result<G, graphrs::Error> {
+        Graph::new_from_nodes_and_edges(
+            self.nodes.iter().map(|n| N { name: *n, attr: None }.to_node()).collect(),
+            self.edges.iter().map(|e| match e.2 {
+                Some(w) => graphrs::Edge::with_weight(e.0, e.1, w as f64 / den),
                 None => graphrs::Edge::new(e.0, e.1),
             }).collect(),
             self.specs.to_graph_specs(),
